@@ -1,9 +1,9 @@
 package main
 
 import (
-	"go/types"
 	"fmt"
 	"go/token"
+	"go/types"
 	"sort"
 	"strings"
 
@@ -217,7 +217,17 @@ func (c *Ctx) dictRecursionShape() {
 						_ = st
 					}
 				}
-				okv = blockAppendsTo(t, "rightKeys") && blockAppendsTo(b.Succs[1], "leftKeys")
+				// the key lists handed to the first (0) and second (1) recursive call
+				var rec []*ssa.Call
+				allInstrs(f, func(_ *ssa.BasicBlock, in ssa.Instruction) {
+					if cl, ok := in.(*ssa.Call); ok && cl.Call.StaticCallee() != nil && origin(cl.Call.StaticCallee()) == f {
+						rec = append(rec, cl)
+					}
+				})
+				if len(rec) == 2 {
+					left, right := rec[0].Call.Args[2], rec[1].Call.Args[2]
+					okv = appendFeeds(t, right) && !appendFeeds(t, left) && appendFeeds(b.Succs[1], left) && !appendFeeds(b.Succs[1], right)
+				}
 			}
 		}
 		c.check(okv, R, "encodeMap sends keys with bit 1 to the right child", f.Pos(), "isRight -> rightKeys/rightValues, else leftKeys/leftValues", "encodeMap no longer partitions the keys by their next bit into left (0) and right (1)")
@@ -582,4 +592,23 @@ func (c *Ctx) distinctKeyProducers() {
 func fromRequestOnly(v ssa.Value) bool {
 	ls := leaves(v)
 	return len(ls) == 1 && ls[0] == "#1"
+}
+
+// appendFeeds: an append executed in block b (or in the join right after it) produces the value
+// that target (a loop-carried slice) takes on that path.
+func appendFeeds(b *ssa.BasicBlock, target ssa.Value) bool {
+	found := false
+	for _, in := range b.Instrs {
+		cl, ok := in.(*ssa.Call)
+		if !ok {
+			continue
+		}
+		if bi, ok := cl.Call.Value.(*ssa.Builtin); !ok || bi.Name() != "append" {
+			continue
+		}
+		if derivesFrom(target, func(v ssa.Value) bool { return v == ssa.Value(cl) }, false) {
+			found = true
+		}
+	}
+	return found
 }
